@@ -362,6 +362,35 @@ static void sec_d(void) {
   if (g_cb_bad || g_cb_bytes > MI_MAX_DELAY_OUTPUT) { VIOL("delayed-output", "flush delivered %zu bytes from a %zu byte buffer", g_cb_bytes, (size_t)MI_MAX_DELAY_OUTPUT); return; }
   if (total > MI_MAX_DELAY_OUTPUT && g_cb_bytes < MI_MAX_DELAY_OUTPUT - 700) { VIOL("delayed-output", "only %zu bytes were kept of %zu written", g_cb_bytes, total); return; }
   VF_INC(nontrivial);
+  /* the heap-allocated form when its buffer cannot grow any more: the OS refuses new mappings, every span of every segment is in
+     use, and only the 2 KiB and 4 KiB classes have a free block left (next to live neighbours). The text is then cut inside the
+     4 KiB block: terminated within the block's usable size, neighbours untouched. (last: this leaves the heap exhausted) */
+  {
+    mi_register_output(NULL, NULL);
+    uint8_t* k2[8]; uint8_t* k4[8];
+    for (int i = 0; i < 8; i++) { k2[i] = (uint8_t*)mi_malloc(2048); k4[i] = (uint8_t*)mi_malloc(4096); if (!k2[i] || !k4[i]) { VIOL("null-result", "set-up"); return; } memset(k2[i], 0x21 + i, 2048); memset(k4[i], 0x41 + i, 4096); }
+    vf_os.fail_from = vf_os.ncalls; vf_os.fail_kinds = (1u << VF_C_MMAP);
+    static const size_t fill[] = { 1 * MI_MiB, 32 * 1024, 8 * 1024, 1024, 3000, 6000, 12000, 16 * 1024, 24 * 1024, 48 * 1024 };   /* large pages, medium pages, small pages, then the blocks left in existing pages */
+    long nfill = 0;
+    for (size_t f = 0; f < sizeof(fill) / sizeof(fill[0]); f++) for (long i = 0; i < 200000; i++) { if (mi_malloc(fill[f]) == NULL) break; nfill++; }
+    vf_err_count = 0;
+    mi_free(k2[3]); mi_free(k4[3]);                      /* one free block in each of the two classes */
+    char* js = mi_stats_get_json(0, NULL);
+    VF_INC(nodes); VF_INC(checks);
+    if (js != NULL) {
+      size_t us = mi_usable_size(js), L = strnlen(js, us + 65536);
+      vf_sample("mi_stats_get_json(0,NULL) with an exhausted heap (%ld filler blocks): %zu bytes of text in a block of %zu usable bytes", nfill, L, us);
+      if (L >= us) { VIOL("json-heap-overflow", "mi_stats_get_json(0,NULL) whose buffer could not grow (heap exhausted, OS refusing) returned a block of %zu usable bytes holding %zu characters without a terminator inside it", us, L); return; }
+      if (us > 6000) { vf_sample("(the buffer could still grow to %zu bytes: exhaustion incomplete)", us); }
+      else VF_INC(nontrivial);
+    }
+    for (int i = 0; i < 8; i++) {
+      if (i == 3) continue;
+      for (size_t j = 0; j < 2048; j++) if (k2[i][j] != 0x21 + i) { VIOL("json-heap-overflow", "mi_stats_get_json(0,NULL) with an exhausted heap changed byte %zu of a live 2 KiB block", j); return; }
+      for (size_t j = 0; j < 4096; j++) if (k4[i][j] != 0x41 + i) { VIOL("json-heap-overflow", "mi_stats_get_json(0,NULL) with an exhausted heap changed byte %zu of a live 4 KiB block", j); return; }
+    }
+    vf_os_plan_clear();
+  }
 }
 
 /* ---------------- sec e: exec mode ------------------------------------------------------------------------------ */
